@@ -559,6 +559,16 @@ func (x *Exec) opAllocate(st *Step) { //nolint:cyclop,gocyclo,maintidx
 
 		return
 	}
+	if !success && st.Opt == "evenport" && x.w.cfg.RealGenPorts > 0 && rq.resp != nil && strings.Contains(respDesc(rq.resp), "code=508") {
+		// the library's port-range generator over a handful of ports: when the even ones are taken
+		// every probe lands on an odd port and the search for an even one gives up - a legitimate 508
+		if after := x.fingerprint(); after != before && !x.slept {
+			x.fail([]string{"C15", "C19"}, "failed-allocate-changed-state", "refused Allocate (no even port in the range) changed server state:\n before: %s\n after:  %s", before, after)
+		}
+		x.St.inc("allocate-refused:no-even-port-in-range")
+
+		return
+	}
 	if !success {
 		x.fail([]string{"X00"}, "allocate-unexpectedly-refused", "well-formed Allocate answered with %s", respDesc(rq.resp))
 
